@@ -462,3 +462,53 @@ def batch_conservation(chk, rule, f, listname, send, itervar, iter_text, skip_ok
                           after_send + empties, ignore_exc=True)
     chk.ob(rule, "%s: what is left in the list when the loop ends is sent" % f.qualname, bool(after_send) and w is None, f.where(head.ast),
            path=cfg.fmt_path(w, f.relpath) if w else None, construct=f.ident, text="final flush")
+
+
+def mutation_while_iterating(func_node):
+    """[(loop, stmt, what)] for loops that iterate a list/dict *directly* (no snapshot) while their body deletes from /
+    removes from / inserts into that same container: `for i, e in enumerate(L): del L[i]`, `for e in L: L.remove(e)`,
+    `for k in D: del D[k]`.  Elements are skipped (lists) or RuntimeError is raised (dicts)."""
+    out = []
+    alias = {}
+    for a in ast.walk(func_node):
+        if isinstance(a, ast.Assign) and len(a.targets) == 1 and isinstance(a.targets[0], ast.Name) and \
+                isinstance(a.value, (ast.Attribute, ast.Subscript, ast.Name)):
+            alias.setdefault(a.targets[0].id, set()).add(src(a.value))
+
+    def same(a_text, b_text):
+        return a_text == b_text or b_text in alias.get(a_text, ()) or a_text in alias.get(b_text, ())
+    for loop in [x for x in ast.walk(func_node) if isinstance(x, (ast.For, ast.AsyncFor))]:
+        it = loop.iter
+        if isinstance(it, ast.Call) and isinstance(it.func, ast.Name) and it.func.id in ("enumerate", "reversed") and it.args:
+            if it.func.id == "reversed":
+                continue            # deleting while walking backwards is the safe idiom
+            it = it.args[0]
+        if isinstance(it, ast.Call) and isinstance(it.func, ast.Attribute) and it.func.attr in ("items", "keys", "values") and not it.args:
+            it = it.func.value
+        if is_snapshot(it) or not isinstance(it, (ast.Name, ast.Attribute, ast.Subscript)):
+            continue
+        base = src(it)
+        for st in loop.body:
+            for x in ast.walk(st):
+                if isinstance(x, ast.Delete):
+                    for t in x.targets:
+                        if isinstance(t, ast.Subscript) and same(src(t.value), base):
+                            out.append((loop, x, "del %s[...]" % base))
+                if isinstance(x, ast.Call) and isinstance(x.func, ast.Attribute) and same(src(x.func.value), base) and \
+                        x.func.attr in ("remove", "pop", "insert", "append", "clear", "popitem", "discard", "add"):
+                    # leaving the loop right after the mutation is fine (break / return follows in the same block)
+                    out.append((loop, x, "%s.%s(...)" % (base, x.func.attr)))
+    # drop mutations that are immediately followed by break/return in the same block
+    res = []
+    for loop, x, what in out:
+        safe = False
+        for blk in [n.body for n in ast.walk(loop) if hasattr(n, "body") and isinstance(getattr(n, "body"), list)] + \
+                   [n.orelse for n in ast.walk(loop) if hasattr(n, "orelse") and isinstance(getattr(n, "orelse"), list)]:
+            for i, st in enumerate(blk):
+                if any(y is x for y in ast.walk(st)) and not isinstance(st, (ast.For, ast.While, ast.If, ast.Try, ast.With)):
+                    rest = blk[i + 1:]
+                    if rest and isinstance(rest[0], (ast.Break, ast.Return)):
+                        safe = True
+        if not safe:
+            res.append((loop, x, what))
+    return res
